@@ -19,15 +19,34 @@ pub struct Uint<const BITS: usize, const LIMBS: usize> { pub
 //@ include lib/uint_spec.rs
 //@ include lib/uint_ops.rs
 
-// ASSUMED (label A): the first-limb block of inv_ring (five Newton steps over core::num::Wrapping<u64>, outside the Verus
-// subset) is routed through this wrapper, whose body is that block verbatim (declared rewrite in the extract line below).
-// Contract: for odd n the result is the inverse of n modulo 2^64. Kani: c02::c02_inv_ring_w{1,8,16} (the 64-bit instance did
-// not finish in 300 s), so this is an assumption with bounded evidence only.
-#[verifier::external_body]
-pub fn inv64_block(n0: u64) -> (r: u64)
-    requires n0 % 2 == 1
-    ensures (n0 as int * r as int) % B == 1
-{ unimplemented!() }
+// the seed of the Newton iteration: for odd n, ((3n mod 2^64) xor 2) inverts n modulo 16
+pub proof fn lemma_inv_seed(n: u64, t: u64, y: u64)
+    requires n % 2 == 1, t as int == (n as int * 3) % B, y == t ^ 2
+    ensures (n as int * y as int) % 16 == 1
+{
+    let r = (n % 16) as u64;
+    let t16 = (t % 16) as u64;
+    // t mod 16 == (3 * (n mod 16)) mod 16
+    lemma_mod_mod(n as int * 3, 16, 0x1000_0000_0000_0000);
+    assert(B == 16 * 0x1000_0000_0000_0000);
+    lemma_mul_mod_noop_left(n as int, 3, 16);
+    assert(t16 as int == (r as int * 3) % 16);
+    // xor 2 only touches bit 1
+    assert((t ^ 2) % 16 == ((t % 16) ^ 2)) by(bit_vector);
+    let y16 = (y % 16) as u64;
+    assert(y16 == t16 ^ 2);
+    // table over the eight odd residues: t16 = 3r mod 16, y16 = t16 xor 2, r * y16 = 1 (mod 16)
+    if r == 1 { assert(t16 == 3); assert(3u64 ^ 2 == 1) by(bit_vector); assert(y16 == 1); assert((1int * 1) % 16 == 1); }
+    else if r == 3 { assert(t16 == 9); assert(9u64 ^ 2 == 11) by(bit_vector); assert(y16 == 11); assert((3int * 11) % 16 == 1); }
+    else if r == 5 { assert(t16 == 15); assert(15u64 ^ 2 == 13) by(bit_vector); assert(y16 == 13); assert((5int * 13) % 16 == 1); }
+    else if r == 7 { assert(t16 == 5); assert(5u64 ^ 2 == 7) by(bit_vector); assert(y16 == 7); assert((7int * 7) % 16 == 1); }
+    else if r == 9 { assert(t16 == 11); assert(11u64 ^ 2 == 9) by(bit_vector); assert(y16 == 9); assert((9int * 9) % 16 == 1); }
+    else if r == 11 { assert(t16 == 1); assert(1u64 ^ 2 == 3) by(bit_vector); assert(y16 == 3); assert((11int * 3) % 16 == 1); }
+    else if r == 13 { assert(t16 == 7); assert(7u64 ^ 2 == 5) by(bit_vector); assert(y16 == 5); assert((13int * 5) % 16 == 1); }
+    else { assert(r == 15); assert(t16 == 13); assert(13u64 ^ 2 == 15) by(bit_vector); assert(y16 == 15); assert((15int * 15) % 16 == 1); }
+    lemma_mul_mod_noop_general(n as int, y as int, 16);
+    assert((r as int * y16 as int) % 16 == 1);
+}
 
 // one lifting step: a*x = 1 (mod k1)  ==>  a * (x * (2 - a*x)) = 1 (mod k2) whenever k2 divides k1*k1 and everything is taken mod m with k2 | m
 pub proof fn lemma_hensel(a: int, x: int, k1: int, k2: int, m: int, s: int, y: int)
@@ -106,7 +125,26 @@ impl<const BITS: usize, const LIMBS: usize> Uint<BITS, LIMBS> {
         ensures r.wf(), r.val() == value
     { unimplemented!() }
 
-//@ extract src/mul.rs fn inv_ring rewrite="result . limbs [ 0 ] = $1 ;" => "result.limbs[0] = inv64_block(self.limbs[0]);" #1
+    // one Newton step on machine words:  n*x = 1 (mod 2^p)  ==>  n*y = 1 (mod 2^(2p))  for y = x * (2 - n*x) in wrapping arithmetic, 2p <= 64
+    pub proof fn lemma_newton_step(n: u64, x: u64, y: u64, p: nat)
+        requires 2 * p <= 64, p >= 1,
+            (n as int * x as int) % (pow2(p) as int) == 1,
+            y as int == (x as int * ((2 - (n as int * x as int) % B) % B)) % B,
+        ensures (n as int * y as int) % (pow2(2 * p) as int) == 1
+    {
+        lemma_pow2_64();
+        lemma_pow2_divs(p, 64);
+        assert(minn(p, 64) == p && minn(2 * p, 64) == 2 * p);
+        let sv = (2 - (n as int * x as int) % B) % B;
+        lemma_mod_twice(2 - (n as int * x as int) % B, B);
+        lemma_mod_twice(x as int * sv, B);
+        lemma_pow2_strictly_increases(0, p); lemma_pow2_strictly_increases(0, 2 * p); lemma2_to64();
+        lemma_small_mod(1, pow2(p)); lemma_small_mod(1, pow2(2 * p));
+        lemma_small_mod(y as nat, B as nat);
+        lemma_hensel(n as int, x as int, pow2(p) as int, pow2(2 * p) as int, B, sv, y as int);
+    }
+
+//@ extract src/mul.rs fn inv_ring rewrite="const W2 : Wrapping < u64 > = Wrapping ( 2 ) ;" => "let W2: u64 = 2;" #1 rewrite="const W3 : Wrapping < u64 > = Wrapping ( 3 ) ;" => "let W3: u64 = 3;" #1 rewrite="let n = Wrapping ( self . limbs [ 0 ] ) ;" => "let n: u64 = self.limbs[0];" #1 rewrite="let mut inv = ( n * W3 ) ^ W2 ;" => "let mut inv: u64 = n.wrapping_mul(W3) ^ W2;" #1 rewrite="inv *= W2 - n * inv ;" => "inv = inv.wrapping_mul(W2.wrapping_sub(n.wrapping_mul(inv)));" rewrite="n . 0 . wrapping_mul ( inv . 0 )" => "n.wrapping_mul(inv)" #? rewrite="inv . 0" => "inv" #1
     pub fn inv_ring(self) -> /*+*/(r:/*-*/ Option<Self>/*+*/)
         requires self.wf(), BITS <= usize::MAX - 63
         ensures
@@ -126,7 +164,31 @@ impl<const BITS: usize, const LIMBS: usize> Uint<BITS, LIMBS> {
         }
         let mut result = Self::ZERO();
         /*+*/let ghost z = result;/*-*/
-        result.limbs[0] = inv64_block(self.limbs[0]);
+        result.limbs[0] = {
+            let W2: u64 = 2;
+            let W3: u64 = 3;
+            let n: u64 = self.limbs[0];
+            let mut inv: u64 = n.wrapping_mul(W3) ^ W2;
+            /*+*/proof {
+                lemma_pow2_64(); lemma2_to64();
+                lemma_inv_seed(n, n.wrapping_mul(W3), inv);
+                assert(pow2(4) == 16 && pow2(8) == 256 && pow2(16) == 65536 && pow2(32) == 0x1_0000_0000);
+            }
+            let ghost i0 = inv;/*-*/
+            inv = inv.wrapping_mul(W2.wrapping_sub(n.wrapping_mul(inv)));
+            /*+*/proof { Self::lemma_newton_step(n, i0, inv, 4); }
+            let ghost i1 = inv;/*-*/
+            inv = inv.wrapping_mul(W2.wrapping_sub(n.wrapping_mul(inv)));
+            /*+*/proof { Self::lemma_newton_step(n, i1, inv, 8); }
+            let ghost i2 = inv;/*-*/
+            inv = inv.wrapping_mul(W2.wrapping_sub(n.wrapping_mul(inv)));
+            /*+*/proof { Self::lemma_newton_step(n, i2, inv, 16); }
+            let ghost i3 = inv;/*-*/
+            inv = inv.wrapping_mul(W2.wrapping_sub(n.wrapping_mul(inv)));
+            /*+*/proof { Self::lemma_newton_step(n, i3, inv, 32); lemma_pow2_64(); }/*-*/
+            vassert ( (n.wrapping_mul(inv) ) == ( 1 ) );
+            inv
+        };
         /*+*/let ghost a = self.val() as int; let ghost mm = m2(BITS);/*-*/
         let mut correct_limbs = 1;
         /*+*/proof {
@@ -140,6 +202,9 @@ impl<const BITS: usize, const LIMBS: usize> Uint<BITS, LIMBS> {
             lemma_mul_mod_noop_left(a0, x0, B);
             assert((a * x0) % B == 1);
             lemma_pow2_pos(BITS as nat);
+            assert(pow2(64) as int == B);
+            assert(1int % B == 1);
+            assert((a * x0) % (pow2(64) as int) == 1int % (pow2(64) as int));
             lemma_mod_of_divisor(a * x0, minn(64, BITS as nat), 64);
             if LIMBS >= 2 { assert(result.limbs[LIMBS - 1] == 0); }
         }/*-*/
@@ -222,21 +287,6 @@ pub proof fn lemma_lv_low_limb(s: Seq<u64>, n: nat)
         let t = (s[n - 1] as nat) * w;
         assert(t as int == B * ((s[n - 1] as int) * h as int)) by(nonlinear_arith) requires t == (s[n - 1] as nat) * w, w as int == B * h as int;
         lemma_mod_multiples_vanish((s[n - 1] as int) * h as int, lv(s, (n - 1) as nat) as int, B);
-    }
-}
-pub proof fn lemma_lv_single(s: Seq<u64>, n: nat)
-    requires 1 <= n <= s.len(), forall|j: int| 1 <= j < n ==> s[j] == 0
-    ensures lv(s, n) == s[0] as nat
-    decreases n
-{
-    if n == 1 {
-        lemma2_to64();
-        assert(lv(s, 1) == lv(s, 0) + (s[0] as nat) * pow2(0));
-        assert(lv(s, 0) == 0);
-        assert((s[0] as nat) * 1 == s[0] as nat) by(nonlinear_arith);
-    } else {
-        lemma_lv_single(s, (n - 1) as nat);
-        assert((s[n - 1] as nat) * pow2(64 * (n - 1) as nat) == 0) by(nonlinear_arith) requires s[n - 1] == 0;
     }
 }
 // x == 1 (mod 2^big)  ==>  x == 1 (mod 2^small) for small <= big
